@@ -189,7 +189,7 @@ fn fin(mut rep: Reporter, cfg: &RunCfg, level: &str, rule: &str, assumptions: &[
         "C13" => " || every executed route (any shape) is re-run from its pre-state with minimum_receive = delivered (must execute, same output) and delivered + 1 (must fail as a whole); an executed stableswap trade whose fee shares alone exceed the tolerance is over the limit under any reading of the pool price; forked lopsided_deposit_probe every 25th step (fresh constant-product pool at a base-unit ratio of 1e-21..1e-14 in either denom order, six off-ratio deposits under tolerances 0.1%..100%).",
         "C17" => " || one toggle in three also restates current values of the other configuration fields in the same message.",
         "C19" => " || kernel amplifications 1..u64::MAX; one case in twelve has reserves at or beyond the 128-bit normalisation edge (refusal path).",
-        "C04" => " || transfers compared netted per (kind, from, to, denom); the only transfer a swap may take from its sender is the first hop's offer (one swap in 25 carries another coin); the protocol fee goes to the collector configured in the pre-state; forked lp_pool_probe every 120th step (a pool holding another pool's LP token, all four fees, swaps into and out of the factory denom).",
+        "C04" => " || transfers compared netted per (kind, from, to, denom); the only transfer a swap may take from its sender is the first hop's offer (one swap in 25 carries another coin); the protocol fee goes to the collector the accepted messages define (modelled, not read back from the configuration; clause fee_destination); forked lp_pool_probe every 120th step (a pool holding another pool's LP token, all four fees, swaps into and out of the factory denom).",
         "C09" => " || the penalty is recovered from what each party ends up with (independent of how transfers are batched); the fee collector is the one configured at the time of the exit, and one forked exit probe in three first re-points it at the owner of an active farm; undefined_epoch_probe every 60th step (genesis moved ahead: an executed exit is judged against the farms active when epochs were last defined).",
         "C03" => " || one there-and-back trip in three sends each leg as one routed message of 2-5 hops.",
         "C10" => " || forked many_snapshots_probe (twelve top-ups in twelve epochs without a claim, then every open position of that staker leaves through the emergency exit).",
